@@ -1,32 +1,20 @@
-"""Per-property configuration of bin/check."""
+"""Per-property configuration of bin/check: one file bin/props/Cnn.py per claimed property (defines CFG)."""
+import os, sys, glob, importlib.util
 
 ALLOWED_AXIOMS = {"propext", "Classical.choice", "Quot.sound"}
 
-COMMON_TB = [
-    "Lean 4.33 kernel (leanchecker re-check in the thorough tier); axioms allowed: propext, Classical.choice, Quot.sound",
-    "bin/check (Python), harness/ (Go) and the Lean driver: the correspondence check itself",
-]
+_D = os.path.join(os.path.dirname(os.path.abspath(__file__)), "props")
+sys.path.insert(0, _D)
 
-HOOK_COMMITS = []
+# commits in /repo that add build-tagged hooks (tag `verif`)
+HOOK_COMMITS = ["772add9", "881f4e3"]
 
 _NYB = "check not built yet in this round (planned, see DESIGN.md section 6); not claimed"
 NOT_APPLICABLE = {f"C{i:02d}": _NYB for i in range(1, 21)}
 
-PROPS = {
-    "C19": {
-        "technique": "Lean 4 theorems (induction over the version table) + differential run against real bdb",
-        "level_text": "All clauses of C19 are Lean theorems about the model of migration.Upgrade for every table, stored version and failure position; the model is tied to the Go code by a differential run on random and (thorough) exhaustively enumerated small tables on a real bdb database.",
-        "level_note": "Trusted: Lean kernel; the hand model of manager.go (checked by correspondence only on explored inputs); sort.Slice returns a sorted permutation; walletdb.Update atomicity (C11).",
-        "lean_props": ["BtcwVerif.Props.C19"],
-        "engines": ["migration"],
-        "trusted_base": COMMON_TB + [
-            "hand-written model BtcwVerif/Model/Migration.lean of walletdb/migration/manager.go (tied by differential run)",
-            "Go's sort.Slice is assumed to return a sorted permutation (its stability is NOT assumed)",
-            "atomicity of the enclosing walletdb.Update is the C11 assumption; the engine exercises it on real bdb",
-        ],
-        "assumptions": [
-            "migrations are modelled by identity + success/failure; their data effect is 'a write tagged with the id'",
-            "uint32 version numbers modelled as Nat (no overflow: numbers are small constants in every caller)",
-        ],
-    },
-}
+PROPS = {}
+for _p in sorted(glob.glob(os.path.join(_D, "C[0-9][0-9].py"))):
+    _spec = importlib.util.spec_from_file_location("prop_" + os.path.basename(_p)[:-3], _p)
+    _m = importlib.util.module_from_spec(_spec)
+    _spec.loader.exec_module(_m)
+    PROPS[os.path.basename(_p)[:-3]] = _m.CFG
